@@ -4,11 +4,11 @@ package main
 // in topological order, path-insensitive (block path conditions), one named constant per register.
 
 import (
-	"regexp"
 	"fmt"
 	"go/constant"
 	"go/token"
 	"go/types"
+	"regexp"
 	"sort"
 	"strings"
 
@@ -71,31 +71,32 @@ func newWriteRec() *writeRec {
 }
 
 type Frame struct {
-	pendingFree []Val // free-variable values of the closure about to be called through its contract
-	thinCalls bool // inside a dynamic dispatch over many candidates: assume only unscoped ensures
-	vc        *VC
-	fn        *ssa.Function
-	con       *Contract
-	vals      map[ssa.Value]Val
-	params    map[string]Val // entry values of parameters (and receiver) by source name
-	entry     *State
-	depth     int
-	top       bool
-	dry       bool
-	rec       *writeRec
-	exits     []Exit
-	loops     map[*ssa.BasicBlock]*loopInfo
-	retIdx    map[*ssa.Return]int
-	callIdx   map[ssa.Instruction]int
-	stack     []*ssa.Function
-	spec      map[string]Val // ghosts, lets
-	edgeCnd   map[*ssa.BasicBlock]map[*ssa.BasicBlock]string
-	defers    []*ssa.Defer
-	label     string // prefix for obligation names
-	parent    *Frame
-	unwinding *unwindCtx
-	prevState *State
-	mods      map[string][]string
+	pendingFree  []Val // free-variable values of the closure about to be called through its contract
+	thinCalls    bool  // inside a dynamic dispatch over many candidates: assume only unscoped ensures
+	vc           *VC
+	fn           *ssa.Function
+	con          *Contract
+	vals         map[ssa.Value]Val
+	params       map[string]Val // entry values of parameters (and receiver) by source name
+	entry        *State
+	depth        int
+	top          bool
+	dry          bool
+	rec          *writeRec
+	exits        []Exit
+	loops        map[*ssa.BasicBlock]*loopInfo
+	retIdx       map[*ssa.Return]int
+	callIdx      map[ssa.Instruction]int
+	stack        []*ssa.Function
+	spec         map[string]Val // ghosts, lets
+	edgeCnd      map[*ssa.BasicBlock]map[*ssa.BasicBlock]string
+	defers       []*ssa.Defer
+	label        string // prefix for obligation names
+	parent       *Frame
+	entryMeasure []string // termination measure of the function under verification at entry (function-level decreases)
+	unwinding    *unwindCtx
+	prevState    *State
+	mods         map[string][]string
 }
 
 func (f *Frame) pos(p token.Pos) token.Position {
@@ -526,7 +527,7 @@ func (f *Frame) applyHintCon(con *Contract, h Hint, pc string, st *State, where 
 	case "use":
 		// must be an instance of a proved lemma or an unfolding of a spec function: checked syntactically
 		call, ok := h.E.(ECall)
-		if !ok || !f.vc.prog.prelude.isLemma(call.Fn) {
+		if !ok || (!f.vc.prog.prelude.isLemma(call.Fn) && call.Fn != "keys_subset_len" && call.Fn != "keys_subset2_len") {
 			unsup("'use' hint must be a lemma or unfolding instance: %s", h.Src)
 		}
 		f.vc.assume(pc, t)
